@@ -31,5 +31,9 @@ RsMaxSend(o) == 2 ^ (9 + Hi(o[2]))
 RECURSIVE FirstIn(_, _)
 FirstIn(cl, sl) == IF cl = <<>> THEN "" ELSE IF Head(cl) \in sl THEN Head(cl) ELSE FirstIn(Tail(cl), sl)
 WsChosen(cl, sl) == FirstIn(cl, sl)            \* "" = refused
+\* the same for a peer that offers arbitrary subprotocol names: only names of the form wamp.2.<serializer> count, whatever else
+\* stands before them in the list (offers: sequence of [p, v, s] = the three parts of the name, "" where a part is missing)
+WampV2(offers) == LET f == SelectSeq(offers, LAMBDA o : o.p = "wamp" /\ o.v = "2") IN [i \in 1..Len(f) |-> f[i].s]
+WsChosenRaw(offers, sl) == FirstIn(WampV2(offers), sl)
 
 =============================================================================
